@@ -1920,3 +1920,47 @@ def rule_attribute_handler(check, rule):
     else:
         check.holds(rule, site_of(h, h.node), 'visit_Attribute traverses the object of the access and %s' %
                     ('visits a plain name like any read' if unconditional else 'taints the parameter a plain name denotes'), key=key)
+
+
+def rule_attribute_object_once(check, rule):
+    """(D41b) resolve_name resolves `x.attr` by resolving x first -- which visits x unless it is a plain name -- and then visits the node it
+    was given.  When visit_Attribute itself traverses the object of the access, handing it the attribute node as well visits that object
+    twice: a forwarding call that is the object of a method call is recorded twice, and every source is listed twice in the merged
+    result.  Either the final visit of resolve_name leaves out attributes whose object is not a plain name, or visit_Attribute does not
+    traverse."""
+    vf = VisitorFacts(check.repo)
+    h = vf.handler('Attribute')
+    rn = check.repo.func(VIS + '.resolve_name')
+    check.analysed(rn)
+    key = 'attribute-object-once'
+    st = site_of(rn, rn.node)
+    traverses = False
+    if h is not None:
+        selfn, nodep = h.params()[0][0], h.params()[0][1]
+        traverses = any(isinstance(c, ast.Call) and isinstance(c.func, ast.Attribute) and c.func.attr in ('visit', 'generic_visit') and c.args
+                        and norm(c.args[0]) in ('%s.value' % nodep, nodep) for c in ast.walk(h.node))
+    if not traverses:
+        check.holds(rule, st, 'visit_Attribute does not traverse the object of the access: nothing is visited twice', key=key)
+        return
+    namep = rn.params()[0][1]
+    finals = [c for t in ast.walk(rn.node) if isinstance(t, ast.Try) for s_ in t.finalbody for c in ast.walk(s_)
+              if isinstance(c, ast.Call) and isinstance(c.func, ast.Attribute) and c.func.attr == 'visit' and c.args and norm(c.args[0]) == namep]
+    recursive = any(isinstance(c, ast.Call) and isinstance(c.func, ast.Attribute) and c.func.attr == 'resolve_name' and c.args
+                    and norm(c.args[0]) == '%s.value' % namep for c in ast.walk(rn.node))
+    if not finals or not recursive:
+        check.holds(rule, st, 'resolve_name does not visit the node again after resolving its object', key=key)
+        return
+    from .rules_classes import dominated_by
+
+    def excluded(test, pol):
+        # `isinstance(name, ast.Attribute) and not isinstance(name.value, ast.Name)` leads elsewhere
+        txt = norm(test)
+        return (not pol) and 'Attribute' in txt and ('%s.value' % namep) in txt
+    ok = all(dominated_by(rn, c, excluded) for c in finals)
+    if ok:
+        check.holds(rule, site_of(rn, finals[0]), 'the final visit leaves out attributes whose object was visited while it was resolved', key=key)
+    else:
+        check.violation(rule, site_of(rn, finals[0]), 'resolve_name visits the object of an attribute access while resolving it and then hands the attribute '
+                        'node to visit_Attribute, which traverses the object again: callee(*args, **kwargs).method() is recorded twice and every '
+                        'source is listed twice', key=key,
+                        witness="def w(a, *args, **kwargs): return callee(*args, **kwargs).strip()  -- sources['y'] == [callee, callee]")
